@@ -205,6 +205,22 @@ def fam_binding_wide():
             yield f"binding k=12 mask={mask:b} {naming}", {"family": "binding", "k": 12, "mask": mask, "naming": naming}, build
 
 
+def fam_same_source():
+    """one upstream output read at two (or three) positions of the same callable -- what `a.multiply(a)` builds --
+    next to a second parent, for single- and multi-output parents"""
+    for multi in (False, True):
+        for layout in ("xx", "xyx", "xxy", "xxx"):
+            def build(multi=multi, layout=layout):
+                px = Node("px", outputs=["a", "b"] if multi else None, payload=(functools.partial(gen_term, "px", 2) if multi else functools.partial(term, "px"), ["s"], {}))
+                py = Node("py", payload=(functools.partial(term, "py"), [1], {}))
+                src = {"x": (px.get_output("b") if multi else px.get_output()), "y": py.get_output()}
+                args = [f"in{i}" for i in range(len(layout))]
+                ins = {f"in{i}": src[c] for i, c in enumerate(layout)}
+                c = Node("child", payload=(functools.partial(term, "child"), args + ["tail"], {"kw0": 1}), **ins)
+                return Graph([c])
+            yield f"same-source {layout} multi={multi}", {"family": "binding", "k": len(layout), "mask": 1, "layout": layout, "multi": multi}, build
+
+
 def outnames(N, style):
     if style == "decimal":
         return [str(i) for i in range(N)]
@@ -366,6 +382,8 @@ def cases(thorough: bool = False):
     for tag, rp, build in fam_binding():
         cs.append(("graph", tag, rp, build))
     for tag, rp, build in fam_binding_wide():
+        cs.append(("graph", tag, rp, build))
+    for tag, rp, build in fam_same_source():
         cs.append(("graph", tag, rp, build))
     for tag, rp, build in fam_multi():
         cs.append(("graph", tag, rp, build))
